@@ -4,7 +4,7 @@ PARTIAL claim.  That bytes survive close + reopen is libhdf5's.  nixio's own sha
 of the property is that it keeps NO state of its own: every getter and setter goes
 straight to the backend, containers are re-derived on access, and the state is
 independent of how many handles to an entity were used.  Decided here, on fakeh5:
-after any two operations from a table of 34 API calls (set / clear attributes,
+after any two operations from a table of 48 API calls (set / clear attributes,
 write / append data, create, delete, link, unlink, dimension changes - applied
 through long-lived handles that had already been read from, or through second
 handles of the same entities), the complete observable state read through the
@@ -64,6 +64,12 @@ def _fixture_c():
     E["child"] = src.create_source("child", "t")
     da.sources.append(src)
     da.metadata = sec
+    # second long-lived handles of the same entities (obtained by navigation)
+    b2 = f.blocks["blk"]
+    E["blk_b"], E["da_b"], E["da2_b"], E["tag_b"], E["mt_b"], E["grp_b"] = (
+        b2, b2.data_arrays["da"], b2.data_arrays["da2"], b2.tags["tg"], b2.multi_tags["mt"], b2.groups["grp"])
+    E["sec_b"] = f.sections["sec"]
+    E["prop_b"] = E["sec_b"].props["p"]
     return E
 
 
@@ -221,7 +227,21 @@ def _ops(E):
         ("force created_at via 2nd", lambda: f.blocks["blk"].data_arrays["da"].force_created_at(5)),
         ("sdim.interval via 2nd", lambda: setattr(f.blocks["blk"].data_arrays["da"].dimensions[0],
                                                    "sampling_interval", 0.25)),
+        # link lists emptied / refilled through the first and through the SECOND long-lived handle
+        ("unlink grp via 2nd", lambda: E["grp_b"].data_arrays.__delitem__(da.id)),           # 38
+        ("link grp via 2nd", lambda: E["grp_b"].data_arrays.append(da2)),                    # 39
+        ("tag.refs del", lambda: tag.references.__delitem__(da.id)),                         # 40
+        ("tag.refs append", lambda: tag.references.append(da2)),                             # 41
+        ("tag.refs del via 2nd", lambda: E["tag_b"].references.__delitem__(da.id)),          # 42
+        ("tag.refs append via 2nd", lambda: E["tag_b"].references.append(da2)),              # 43
+        ("da.sources del", lambda: da.sources.__delitem__(E["src"].id)),                     # 44
+        ("da.sources append", lambda: da.sources.append(E["child"])),                        # 45
+        ("da.sources del via 2nd", lambda: E["da_b"].sources.__delitem__(E["src"].id)),      # 46
+        ("da.sources append via 2nd", lambda: E["da_b"].sources.append(E["child"])),         # 47
     ]
+
+
+NOPS = 48
 
 
 def _handles(E):
@@ -234,12 +254,19 @@ def _handles(E):
     return H
 
 
+def _handles_b(E):
+    H = {}
+    for k in ("blk", "da", "da2", "tag", "mt", "grp", "sec", "prop"):
+        H[E[k].id] = E[k + "_b"]
+    return H
+
+
 # ---------------------------------------------------------------------------
 # session view == fresh view, after two operations     PART = index of the first op
 # ---------------------------------------------------------------------------
 def _ob_no_hidden_state(o2: int, ro: bool) -> bool:
     """
-    pre: 0 <= o2 < 38
+    pre: 0 <= o2 < 48
     post: __return__
     """
     import nixio
@@ -247,7 +274,9 @@ def _ob_no_hidden_state(o2: int, ro: bool) -> bool:
     E = _fixture()
     f = E["file"]
     H = _handles(E)
+    HB = _handles_b(E)
     _state(f, H)                          # every long-lived handle has been read from once
+    _state(f, HB)
     ops = _ops(E)
     for sel in (o1, o2):
         label, action = _pick(ops, sel)
@@ -256,9 +285,10 @@ def _ob_no_hidden_state(o2: int, ro: bool) -> bool:
         except Exception:  # noqa  a refused second step (e.g. the target was deleted by the first)
             pass
     session = _g(lambda: _state(f, H))
+    session_b = _g(lambda: _state(f, HB))
     fresh = nixio.File(PATH, "r" if ro else "a")
     reopened = _g(lambda: _state(fresh))
-    if session != reopened:
+    if session != reopened or session_b != reopened:
         return False
     f.close()
     again = nixio.File(PATH, "r")
@@ -285,7 +315,9 @@ def _real(fn_name, args):
             E = _fixture_c()
             f = E["file"]
             H = _handles(E)
+            HB = _handles_b(E)
             _state(f, H)
+            _state(f, HB)
             ops = _ops(E)
             for sel in (PART, args["o2"]):
                 try:
@@ -293,11 +325,12 @@ def _real(fn_name, args):
                 except Exception:  # noqa
                     pass
             session = _g(lambda: _state(f, H))
+            session_b = _g(lambda: _state(f, HB))
             f.close()
             again = nixio.File(PATH, "r" if args["ro"] else "a")
             reopened = _g(lambda: _state(again))
             again.close()
-            bad = session != reopened
+            bad = session != reopened or session_b != reopened
             return bad, {"ops": [ops[PART][0], ops[args["o2"]][0]], "session_equals_reopened": not bad}
         except Exception as e:  # noqa
             import traceback
@@ -310,7 +343,7 @@ def _real(fn_name, args):
 
 OBLIGATIONS = [
     Ob("no_hidden_state", _ob_no_hidden_state, timeout=1200,
-       partition_by_tier={"quick": list(range(0, 38, 3)), "thorough": list(range(38))},
+       partition_by_tier={"quick": list(range(0, 38, 3)) + [29, 32, 38, 40, 42, 44, 46], "thorough": list(range(NOPS))},
        functions=["nixio.entity.Entity.definition", "nixio.data_array.DataArray.label",
                   "nixio.container.Container.__iter__", "nixio.hdf5.h5group.H5Group.get_attr",
                   "nixio.hdf5.h5group.H5Group.set_attr", "nixio.file.File.close"],
